@@ -25,6 +25,7 @@ def run(rep, prog, tier):
     rep.rule('C01.2', 'PGPKey.verify passes the loop pair (sig, subj) to hashdata/__sig__/hash and maps a falsy result to WrongSig', floor=5)
     rep.rule('C01.3', 'each key-material verify returns truthy only on a path through the library verify; InvalidSignature -> falsy', floor=4)
     rep.rule('C01.4', 'verdict object: default issues fail closed, WrongSig disqualifies (shared with C17)', floor=3)
+    rep.rule('C01.5', 'version, signature type and both algorithm ids reach the trailer as received: parse order, injective setters, plain getters', floor=12)
     rep.assume('PGPKey.hashdata / PGPUID.hashdata are non-empty for a key / user id that exists (axiom len(...) > 0)')
     rep.assume('cryptography.*.verify raises InvalidSignature on a bad signature and returns None otherwise (trusted base)')
 
@@ -35,6 +36,7 @@ def run(rep, prog, tier):
     verdict.check_fail_closed(rep, prog, 'C01.4')
     verdict.check_crypto_arm_verdict(rep, prog, 'C01.2')
     verdict.check_mask_contains(rep, prog, 'C01.4', ['WrongSig'])
+    check_header_fields(rep, prog)
 
 
 # ------------------------------------------------------------------------------------------------ C01.2
@@ -187,6 +189,13 @@ def check_material_verify(rep, prog):
             rep.violation('C01.3', construct, 'no call self.__pubkey__().verify(...)',
                           'the method never asks the cryptographic library', where=f.where)
             continue
+        # the call must be evaluated whenever its statement is: not the right operand of and/or, not an arm of a conditional
+        # expression, not inside a comprehension (the interpreter's paths fork on statements, not inside expressions)
+        for c in libcalls:
+            cond = conditional_context(f.node, c[4])
+            rep.check(cond is None, 'C01.3', construct, 'library verify evaluated conditionally (%s)' % cond,
+                      'a non-false return is reachable without the library having accepted the signature '
+                      '(the library call is skipped by a short-circuit)', where='%s:%d' % (f.module.relpath, c[3]), found=cond)
         for s in outs:
             if s.raised is not None:
                 continue
@@ -238,3 +247,125 @@ def check_material_verify(rep, prog):
                               'the hash algorithm named by the signature is not used', where=w)
     if n == 0:
         raise AnalysisError('no concrete key-material verify found')
+
+
+def conditional_context(fn_node, target):
+    """Name of the expression construct that makes the evaluation of `target` conditional within its statement, or None."""
+    found = []
+
+    def rec(n, ctx):
+        if n is target:
+            found.append(ctx)
+            return
+        if isinstance(n, ast.BoolOp):
+            for i, v in enumerate(n.values):
+                rec(v, ctx if i == 0 else ('right operand of `%s`' % ('and' if isinstance(n.op, ast.And) else 'or')))
+            return
+        if isinstance(n, ast.IfExp):
+            rec(n.test, ctx)
+            rec(n.body, 'arm of a conditional expression')
+            rec(n.orelse, 'arm of a conditional expression')
+            return
+        if isinstance(n, (ast.ListComp, ast.SetComp, ast.GeneratorExp, ast.DictComp, ast.Lambda)):
+            for ch in ast.iter_child_nodes(n):
+                rec(ch, 'inside a comprehension / lambda')
+            return
+        for ch in ast.iter_child_nodes(n):
+            rec(ch, None if isinstance(ch, ast.stmt) else ctx)
+    rec(fn_node, None)
+    return found[0] if found else None
+
+
+# ------------------------------------------------------------------------------------------------ C01.5
+TRAILER_FIELDS = ('type', 'key_algorithm', 'hash_algorithm')      # PGPSignature properties the 5.2.4 trailer reads (C01.1 template)
+
+
+def check_header_fields(rep, prog):
+    """Every header octet that enters the RFC 4880 5.2.4 trailer must be the octet that was in the packet: the PGPSignature
+    property returns the packet field, the field's getter returns what the setter stored, the setter stores the received value
+    itself (evaluated at every declared id and at undeclared octets: enum lookup by value is injective, anything that sends
+    two octets to one member is not), and parse feeds the fields from consecutive octets in RFC 5.2.3 order."""
+    sv4 = prog.cls('pgpy.packet.packets', 'SignatureV4')
+    props = []
+    for name in TRAILER_FIELDS:
+        g = prog.method('pgpy.pgp', 'PGPSignature', name)
+        rep.saw(fn=g)
+        rets = set(render(s.ret) for s in Interp(prog, Scenario(inline=lambda f: False)).run(g) if s.raised is None and s.ret is not None)
+        m = re.match(r'^self\._signature\.([A-Za-z_]\w*)$', next(iter(rets))) if len(rets) == 1 else None
+        ok = m is not None and sv4.find_prop(m.group(1)) is not None
+        rep.check(ok, 'C01.5', 'PGPSignature.%s' % name, 'returns %s' % sorted(rets),
+                  'the trailer octet must come from the parsed packet field', where=g.where, expected='self._signature.<packet field>', found=sorted(rets))
+        if ok:
+            props.append((sv4, m.group(1)))
+    vh = prog.cls('pgpy.packet.types', 'VersionedHeader')
+    props.append((vh, 'version'))
+    for ci, pname in props:
+        check_injective_field(rep, prog, ci, pname)
+    # parse: type, public-key algorithm, hash algorithm from consecutive received octets
+    sp = prog.method('pgpy.packet.packets', 'SignatureV4', 'parse')
+    rep.saw(fn=sp)
+    want = ['self.%s' % pn for ci, pn in props if ci is sv4]
+    sc = Scenario(args={sp.params[1]: Sym('<pkt>', nonnull=True)}, inline=lambda f: False, forward_stores=False, model_del=True)
+    for s in Interp(prog, sc).run(sp):
+        if s.raised is not None:
+            continue
+        got = []
+        for path, vt, line, v in s.stores:
+            if path in want:
+                m = re.match(r'^(?:<pkt>|SLICE\(<pkt>;(\d+);\))\[0\]$', vt)
+                got.append((path, int(m.group(1) or 0) if m else vt))
+        rep.check(got == [(w, i) for i, w in enumerate(want)], 'C01.5', 'SignatureV4.parse', 'header fields %s' % got,
+                  'signature type, public-key algorithm and hash algorithm are the three consecutive octets after the version (RFC 4880 5.2.3)',
+                  where=sp.where, expected=[(w, i) for i, w in enumerate(want)], found=got)
+
+
+def check_injective_field(rep, prog, ci, pname):
+    p = ci.find_prop(pname)
+    construct = '%s.%s' % (ci.name, pname)
+    if p is None or p.getter is None or not p.setters:
+        raise AnalysisError('%s is no longer a type-dispatched property' % construct)
+    rep.saw(fn=p.getter)
+    rets = set(render(s.ret) for s in Interp(prog, Scenario(inline=lambda f: False)).run(p.getter) if s.raised is None and s.ret is not None)
+    selfname = p.getter.params[0]
+    m = re.match(r'^%s\.([A-Za-z_]\w*)$' % re.escape(selfname), next(iter(rets))) if len(rets) == 1 else None
+    rep.check(m is not None, 'C01.5', construct, 'getter returns %s' % sorted(rets), 'the value hashed must be the stored one',
+              where=p.getter.where, expected='self.<attribute>', found=sorted(rets))
+    if m is None:
+        return
+    attr = m.group(1)
+    # the enum the field is declared with (a registered setter type that is an enum class), and its ids
+    members = {}
+    for tname in p.setters:
+        for ec in prog.classes_by_name.get(tname, []):
+            mem = {k: v for k, v in ec.enum_members().items() if isinstance(v, int) and not isinstance(v, bool)}
+            if mem:
+                members = mem
+                ename = ec.name
+    byval = {}
+    for k, v in members.items():
+        byval.setdefault(v, k)
+    points = sorted(byval) if byval else [3, 4, 5]
+    points += [v for v in (0x6a, 0xfd) if v not in byval][:2]
+    done = set()
+    for tname, st in sorted(p.setters.items()):
+        if id(st) in done or len(st.params) != 2:
+            continue
+        done.add(id(st))
+        rep.saw(fn=st)
+        bad = []
+        for k in points:
+            outs = Interp(prog, Scenario(args={st.params[1]: Const(k)}, inline=lambda f: False)).run(st)
+            rep.analysed['paths'] += len(outs)
+            for s in outs:
+                if s.raised is not None:
+                    continue
+                stored = [vt for path, vt, line, v in s.stores if path == '%s.%s' % (st.params[0], attr)]
+                okvals = {repr(k)}
+                if byval:
+                    okvals.add('%s.%s' % (ename, byval[k]) if k in byval else '%s(%d)' % (ename, k))
+                if not stored or stored[-1] not in okvals:
+                    bad.append((k, stored[-1] if stored else '<nothing stored>'))
+        rep.check(not bad, 'C01.5', '%s_%s' % (construct, tname), '%s <- %s' % (attr, bad[:4]),
+                  'the received %s octet must be stored unchanged (enum lookup by value or the raw value), never mapped to another value: '
+                  'a signature whose octet was rewritten would hash the same trailer' % pname, where=st.where,
+                  expected='octet k stored as the member with value k', found=['octet %s stored as %s' % b for b in bad[:6]])
